@@ -444,7 +444,7 @@ def basic_program(rng, save=False):
         pre = rng.choice([str(num), str(num), str(num), str(num), "", "-10", "1e3", "10.5", "99999999999"])
         L.append(f" {pre} {basic_stmt(rng)}")
     if save and rng.random() < 0.7:
-        L.append(" %d SAVE %s" % (num + 10, rng.choice(['1e-3', 'moles', 'x', '1e308', '-1', 'TOT("Na")'])))
+        L.append(" %d SAVE %s" % (num + 10, rng.choice(['1e-3 * TIME', 'moles * TIME', 'x * TIME', '1e308 * TIME', '-1 * TIME', 'TOT("Na") * TIME', 'TIME'])))
     return L
 
 
